@@ -14,11 +14,17 @@ pub fn lock_state() -> u8 {
     __verif_lock_state()
 }
 
-struct DropMarker;
+struct DropMarker {
+    munmap_fault: bool,
+}
 impl Drop for DropMarker {
     fn drop(&mut self) {
         let how = if std::thread::panicking() { "unwind" } else { "scope" };
-        emit(json!({"ev":"DropBegin","how":how}));
+        emit(json!({"ev":"DropBegin","how":how,"munmap_fault":self.munmap_fault}));
+        if self.munmap_fault {
+            // the first munmap of the scope exit fails (ENOMEM: the VMA cannot be split)
+            interpose::set_policy(Some(Policy { munmap_fail_at: 1, ..Default::default() }));
+        }
         set_in_lib(true);
     }
 }
@@ -76,7 +82,7 @@ fn run_life(pool: &dyn Pool, nf: usize, life: &Value) {
         if kind == "prev" {
             let _g = in_lib(InjectorPP::prevent);
             emit(json!({"ev":"Acquire","kind":"prev","lock":lock_state()}));
-            let _m = DropMarker;
+            let _m = DropMarker { munmap_fault: false };
             for st in &steps {
                 match s(st, "op").as_str() {
                     "probe" => probe(pool, nf, true),
@@ -91,7 +97,7 @@ fn run_life(pool: &dyn Pool, nf: usize, life: &Value) {
         }
         let mut inj = in_lib(InjectorPP::new);
         emit(json!({"ev":"Acquire","kind":"inj","lock":lock_state()}));
-        let _m = DropMarker;
+        let _m = DropMarker { munmap_fault: s(life, "drop_fault") == "munmap" };
         for st in &steps {
             match s(st, "op").as_str() {
                 "install" => {
@@ -156,6 +162,7 @@ fn run_life(pool: &dyn Pool, nf: usize, life: &Value) {
         }
     }));
     set_in_lib(false);
+    interpose::set_policy(None);
     watch::diff_all("drop-end");
     // panics raised by fakes and caught by the caller are not part of an unwinding episode
     let pn = (panics::COUNT.load(SeqCst) - p0) - (CAUGHT.load(SeqCst) - c0);
@@ -231,7 +238,20 @@ fn run_scenario(sc: &Value) {
         matches!(r, Ok(true))
     });
     let works = h.join().unwrap_or(false);
-    emit(json!({"ev":"Fresh","works":works,"ms":t0.elapsed().as_millis() as u64}));
+    // the other guard kind too: a preventer on this thread and on a new one, then an injector again
+    let prev_here = catch_unwind(|| {
+        let g = InjectorPP::prevent();
+        let _ = std::hint::black_box(pool::tb4 as fn(u32) -> bool)(2);
+        let ok = g.is_active() && pool::LAST.load(SeqCst) == 104; // the original body ran
+        drop(g);
+        ok
+    })
+    .unwrap_or(false);
+    let prev_there = std::thread::spawn(|| catch_unwind(|| { let g = InjectorPP::prevent(); g.is_active() }).unwrap_or(false)).join().unwrap_or(false);
+    let inj_again = catch_unwind(|| { let _i = InjectorPP::new(); __verif_lock_state() == 1 }).unwrap_or(false);
+    emit(json!({"ev":"Fresh","works":works && prev_here && prev_there && inj_again,"injector_new_thread":works,
+        "preventer_same_thread":prev_here,"preventer_new_thread":prev_there,"injector_same_thread":inj_again,
+        "ms":t0.elapsed().as_millis() as u64}));
 }
 
 pub fn run(script: &str, out: &str) {
